@@ -1,6 +1,6 @@
 (* Correspondence cases for C09: an op history on a layered store, one observation at its end,
    what the implementation returned; compared with the mechanism model AND with the ordered-map specification. *)
-From NG Require Import Common.Tactics Common.HarnessLib Store.Bytes Store.Model Store.Spec.
+From NG Require Import Common.Tactics Common.HarnessLib Store.Bytes Store.Model Store.Spec Store.Conc.
 Open Scope N_scope.
 
 (* short names for generated terms *)
@@ -12,7 +12,14 @@ Definition PP := OPersistPrivate.
 Definition X := ODrop.
 Definition R := Build_range.
 
+(* one action of a schedule (Store/Conc.v); the reader's range is given once per case *)
+Inductive sact := SW (b : lmap) | SSwap | SLw | SUn | SSnap | SRead.
+
 Inductive case :=
+| CSched (bk : N) (acts : list sact) (r : range) (impl : kvs)
+    (* a schedule of lock regions on one shared MemCachedStore over a base store: batch writes, the three regions
+       of Persist, and ONE reader (SSnap = SeekAsync returned: snapshot taken and ps captured; SRead = its goroutine
+       reads the lower store); impl = what the reader got *)
 | CGet (bk : N) (ops : list op) (k : key) (impl : option val)
     (* Get of k on the top layer after ops *)
 | CSeek (bk : N) (ops : list op) (api : N) (id : N) (r : range) (lim : N) (impl : kvs).
@@ -52,8 +59,58 @@ Definition spec_of (s : stack) (api id : N) (r : range) : kvs :=
   | _ => spec_find_keep s id r
   end.
 
+Definition to_action (r : range) (a : sact) : action :=
+  match a with
+  | SW b => AWrite b | SSwap => ASwap | SLw => ALowerWrite | SUn => AUnswap | SSnap => ASnap r | SRead => ARead
+  end.
+
+Fixpoint split_at (f : sact -> bool) (l : list sact) : option (list sact * list sact) :=
+  match l with
+  | [] => None
+  | a :: t => if f a then Some ([], t)
+              else match split_at f t with Some (p, q) => Some (a :: p, q) | None => None end
+  end.
+
+Definition is_snap (a : sact) := match a with SSnap => true | _ => false end.
+Definition is_read (a : sact) := match a with SRead => true | _ => false end.
+Definition sact_ok (a : sact) : bool :=
+  match a with SW b => forallb (fun kv => negb (isnil (fst kv)) && bytes_okb (fst kv)) b | _ => true end.
+
+(* states of the system at the instants between the reader's two steps *)
+Fixpoint instants (c : cstate) (mid : list action) : list cstate :=
+  c :: match mid with [] => [] | a :: t => instants (cstep c a) t end.
+
+Definition sorted_batch (b : lmap) : lmap := copy_into b [].
+
+Definition check_sched (bk : backend) (acts : list sact) (r : range) (impl : kvs) : N :=
+  match split_at is_snap acts with
+  | Some (pre, rest1) =>
+      match split_at is_read rest1 with
+      | Some (mid, post) =>
+          if existsb is_snap (pre ++ mid ++ post) || existsb is_read (pre ++ mid ++ post) then 3
+          else
+            let c0 := {| cbk := bk; cm := []; ctemp := None; cx := []; rsnap := None; rans := None |} in
+            let norm := fun a => match a with SW b => SW (sorted_batch b) | x => x end in
+            let acts' := fun l => map (fun a => to_action r (norm a)) l in
+            let c1 := cstep (crun c0 (acts' pre)) (ASnap r) in
+            let c2 := cstep (crun c1 (acts' mid)) ARead in
+            let model_ok := option_eqb kvs_eqb (rans c2) (Some impl) in
+            let spec_ok := existsb (fun c => kvs_eqb (rq r (cflat c)) impl) (instants c1 (acts' mid)) in
+            if spec_ok then (if model_ok then 0 else 1) else 2
+      | None => 3
+      end
+  | None => 3
+  end.
+
 Definition check_case (c : case) : N :=
   match c with
+  | CSched bk acts r impl =>
+      match backend_of bk with
+      | Some b =>
+          if forallb sact_ok acts && bytes_okb (rprefix r) && bytes_okb (rstart r) && negb (isnil (rprefix r)) && (rdepth r =? 0)
+          then check_sched b acts r impl else 3
+      | None => 3
+      end
   | CGet bk ops k impl =>
       match backend_of bk with
       | Some b =>
